@@ -1948,12 +1948,19 @@ class QuantifiedConditional(LogicalBinaryOperator, ABC):
     def condition_unique_variable_ids(self) -> List[int]:
         # a predicate / symbolic function is a variable whose value is computed from its arguments: its value for one
         # value of the quantified variable must not be kept for the next one
+        # nor the value that a quantifier inside the condition found for its own variable
+        quantified_inside = {
+            node.variable._id_
+            for node in [self.condition, *self.condition._descendants_]
+            if isinstance(node, QuantifiedConditional)
+        }
         return [
             v.id_
             for v in self.condition._unique_variables_.difference(
                 self.left._unique_variables_
             )
             if not v.value._should_be_instantiated_
+            and v.id_ not in quantified_inside
         ]
 
     def _bindings_of_the_other_variables_(
